@@ -82,9 +82,9 @@ def run(res, replay=None):
     cf = os.path.join(wd, "c06.cases")
     with open(cf, "w") as f:
         for inp, rep, tr, offs in cases:
-            f.write(T.case_line(inp, 1 | 2) + "\n")
-            f.write(T.case_line(rep, 1 | 2) + "\n")
-            f.write(T.case_line(tr, 1) + "\n")
+            f.write(T.case_line(inp, 1 | 2 | 8) + "\n")
+            f.write(T.case_line(rep, 1 | 2 | 8) + "\n")
+            f.write(T.case_line(tr, 1 | 8) + "\n")
     rc, impl, _ = C.run_impl(C.build_harness("debug"), cf, os.path.join(wd, "c06.out"))
     for ci, (inp, rep, tr, offs) in enumerate(cases):
         op, orr, ot = impl.get(3 * ci), impl.get(3 * ci + 1), impl.get(3 * ci + 2)
@@ -94,7 +94,7 @@ def run(res, replay=None):
         bad = next((x for x in (op, orr, ot) if x is None or "panic" in x), "ok")
         if bad != "ok":
             msg = str((bad or {}).get("panic"))
-            res.violation("panic:" + ("no-suitable-vertex:" + (T.known_class(inp) + ["?"])[0] if "No suitable" in msg else ("degenerate-3-plane" if "Degenerate 3-plane" in msg else "other")),
+            res.violation("panic:" + geo.panic_signature(bad, inp),
                           f"construction panicked: {msg} (periodic / replicated / translated build of family {inp['family']} dim {dim})", ctx)
             continue
         a, w = T.norm_box(dim, inp["anchor"], inp["width"])
